@@ -233,6 +233,15 @@ structure Cfg where
   /-- Array/Map offsets must be non-decreasing -/
   monotone : Bool := true
 
+/-- the limits the library enforces while decoding (proto/reader.go `maxStringSize`,
+proto/block.go `maxRowsInBLock`, `maxColumnsInBlock`) -/
+def goStrLimit : Nat := 1073741824
+def goMaxRows : Nat := 100000000
+def goMaxColumns : Nat := 1000000
+
+/-- the configuration that mirrors the library as it is -/
+def goCfg : Cfg := { strLim := some goStrLimit, cap := none, maxRows := goMaxRows, monotone := true }
+
 /-- `checkRows(int(u64))` -/
 def checkRows (cfg : Cfg) (n : Nat) : Parser Nat :=
   if n ≥ 2 ^ 63 then Parser.fail .invalid          -- negative as int
